@@ -1,9 +1,9 @@
 #!/bin/bash
-# Re-test every stored seeded change (rounds 1-4) against the quick check of its own property.
+# Re-test every stored seeded change (rounds 1-8) against the quick check of its own property.
 # Patches /repo's working tree (never commits) and restores it: do not run while a `vp run` uses /repo.
 cd /verif
 for id in C01 C02 C03 C04 C05 C06 C07 C08 C09 C10 C11 C12 C13 C14 C15 C16 C17 C18 C19 C20; do
-  for r in "" 2 3 4 5 6; do
+  for r in "" 2 3 4 5 6 7 8; do
     if [ -z "$r" ]; then python3 tools/seedtest.py $id --stored; else python3 tools/seedtest.py $id --stored --round $r; fi 2>&1 | grep -E "CAUGHT|MISSED|APPLY" | sed "s/^/round ${r:-1} /"
   done
 done
